@@ -692,6 +692,8 @@ func (vc *VC) havocType(st *State, t types.Type) {
 var epochCounter = 0
 
 func (vc *VC) havocAll(st *State, why string) {
+	epochCounter++
+	st.epoch = epochCounter
 	for name, h := range st.heaps {
 		if name == "$Trace" || name == "$TraceArgs" || name == "$TraceLen" {
 			continue // the ghost trace of this function's own calls is only ever appended to
@@ -836,7 +838,7 @@ func (vc *VC) loopAssumeInvariants(lc *loopCtx, st *State) {
 			env.names["idx"] = intVal(lc.idxNow)
 		}
 		for _, inv := range lc.spec.Invariants {
-			vc.assumeAt(st, vc.specBool(env, inv.Expr))
+			vc.assumeAt(st, vc.specAssumable(env, inv.Expr))
 		}
 	}
 	for _, ai := range lc.autoInv {
